@@ -897,6 +897,13 @@ def canon_bindings(sig, body, expected_params, expected_locals):
     actual_l = [n for n in binding_names(body) if n not in actual_p]
     if len(actual_l) == len(expected_locals):
         ren.update({a: e for a, e in zip(actual_l, expected_locals) if a != e})
+    # only a PURE rename is undone: every name that occurs in both lists must sit at the same position (a declaration that
+    # moved, appeared or disappeared leaves the text as it is)
+    for act, exp in ((actual_p, expected_params), (actual_l, expected_locals)):
+        if len(act) == len(exp):
+            for a, e in zip(act, exp):
+                if a != e and (a in exp or e in act):
+                    return body
     if not ren:
         return body
     # a target name that is still in use for something else would be captured: give up (the unit then decides on the text as it is)
